@@ -102,11 +102,12 @@ func c07Gen(r *Rand, tier string, scale int, emit func(Fields)) {
 			add(sc)
 		}
 	}
-	// 6. the known finding D12: a handler that takes conn.mu while the teardown waits for it
-	{
-		c := mk(c06Ender{closeN: 1})
+	// 6. D12: a handler asks Connected() while the teardown waits for it — every cause
+	for e := 0; e < 5; e++ {
+		c := mk(c07Ender(e))
 		c.hs, c.hlock = 1, true
-		add(lcScript{cycles: []lcCycle{c}})
+		c.inN = []int{0, 33, 0, 66, 1}[e]
+		add(lcScript{ctx: true, cycles: []lcCycle{c}})
 	}
 	// 7. random fill / thorough product
 	extra := scale - len(scripts)
